@@ -174,7 +174,7 @@ def exArgs : List TVal :=
 
 example : TypedFields exTs exArgs ∧ SmallList exArgs := by
   simp [exTs, exArgs, Typed, TypedPairs, TypedFields, TypedList, TypedMembers, width, C09.WF, Plain, print, maxStringSize,
-    basicLetters, zeroSize, zeroSizeList, Small, SmallPairs, SmallList, listValueMaxSize]
+    basicLetters, zeroSize, zeroSizeList, Small, SmallPairs, SmallList, listValueMaxSize, SigFits, C09.nest, maxDepth]
 
 
 /-! ### the names of what is generated -/
